@@ -85,8 +85,10 @@ class AdaClipDPOptimizer(DPOptimizer):
         """
         super().zero_grad(set_to_none)
 
-        self.sample_size = 0
-        self.unclipped_num = 0
+        if not self._is_last_step_skipped:
+            # like p.summed_grad, the counters cover the whole logical batch
+            self.sample_size = 0
+            self.unclipped_num = 0
 
     def clip_and_accumulate(self):
         per_param_norms = [
